@@ -239,14 +239,16 @@ Proof.
     subst e. right. right. exists t, EInvalid. simpl.
     split; [reflexivity|]. split; [reflexivity|]. split; [discriminate|split; reflexivity]. }
   destruct (match np with
-            | Some p => match lookup (meta s1) p with
+            | Some p => if Nat.eqb p t then Some ENotFound else
+                        match lookup (del (meta s1) key) p with
                         | Some pi => if kind_eqb (i_kind pi) KCommitted then None else Some EFailedPre
                         | None => Some ENotFound
                         end
             | None => None
             end) as [e|] eqn:PE.
   { assert (EE : e = ENotFound \/ e = EFailedPre).
-    { destruct np as [p|]; [|discriminate]. destruct (lookup (meta s1) p) as [pi|]; [|inversion PE; auto].
+    { destruct np as [p|]; [|discriminate]. destruct (Nat.eqb p t); [inversion PE; auto|].
+      destruct (lookup (del (meta s1) key) p) as [pi|]; [|inversion PE; auto].
       destruct (kind_eqb (i_kind pi) KCommitted); inversion PE. auto. }
     right. right. exists t, e.
     destruct EE; subst e; simpl; (split; [reflexivity|]; split; [reflexivity|]; split; [discriminate|split; reflexivity]). }
